@@ -944,3 +944,15 @@ func (self *Lexer) makeName() Token {
 		},
 	)
 }
+
+// Reports whether the input, when used in source code, is lexed as exactly one identifier
+// (keywords like `fn` or `on` are not identifiers).
+func IsIdent(input string) bool {
+	lexer := NewLexer(input, "")
+	first, err := lexer.NextToken()
+	if err != nil || first.Kind != Identifier || first.Value != input {
+		return false
+	}
+	second, err := lexer.NextToken()
+	return err == nil && second.Kind == EOF
+}
